@@ -279,11 +279,17 @@ func (commit *Commit) Height() int64 {
 	if len(commit.Precommits) == 0 {
 		return 0
 	}
+	if commit.FirstPrecommit() == nil {
+		return 0
+	}
 	return commit.FirstPrecommit().Height
 }
 
 func (commit *Commit) Round() int64 {
 	if len(commit.Precommits) == 0 {
+		return 0
+	}
+	if commit.FirstPrecommit() == nil {
 		return 0
 	}
 	return commit.FirstPrecommit().Round
